@@ -112,8 +112,10 @@ REG = {
  "C18": dict(
   text="FBuiltins/FDecimal define abs, ceil, floor, round (either neighbour at a tie), roundBank, max, min, toInt, toFloat, finite and "
        "the two's-complement bit operators on digit sequences; TLC checks NamesSay (defining bounds) on the specification and computes "
-       "every case of the grid family, replayed into the real evaluator; toString is checked through toFloat(toString(x)) === x.",
-  note="Trusted: TLC, FDecimal. sqrt/exp/ln/log to 15 digits are not decided yet (planned: bracket checks by trace validation).",
+       "every case of the grid family, replayed into the real evaluator; toString is checked through toFloat(toString(x)) === x; "
+       "sqrt, exp, ln, log are recorded from the real builtins and judged by FTranscend in Trace_Math (sqrt by squaring, exp against a "
+       "32-decimal fixed-point Taylor evaluation that checks itself on known constants, ln and log through exp).",
+  note="Trusted: TLC, FDecimal. '15 significant digits' is read as relative error <= 5e-15; exp arguments |x| < 40.",
   technique="TLA+ decimal-arithmetic specification model-checked with TLC; exhaustive grid replay into the real evaluator",
   design="DESIGN.md section 4/C18"),
  "C04": dict(
